@@ -5,6 +5,7 @@ import (
 	"encoding/json"
 	"fmt"
 	"io"
+	"net"
 	"os"
 	"os/exec"
 	"path/filepath"
@@ -15,6 +16,7 @@ import (
 	"syscall"
 	"time"
 
+	"github.com/MichaelMure/git-bug/cache"
 	"github.com/MichaelMure/git-bug/entities/bug"
 	"github.com/MichaelMure/git-bug/entities/identity"
 	"github.com/MichaelMure/git-bug/entity"
@@ -182,6 +184,118 @@ func runC19(c *runCtx) {
 	c19Commands(c, gb)
 	c19Races(c, gb, tmplUser, bugId, facts.LockExclusive)
 	c19LockForms(c, gb, tmplUser, bugId)
+	c19Webui(c, gb, tmplUser)
+	c19DoubleClose(c)
+	c19EmptyLock(c, gb, tmplUser, bugId)
+}
+
+// c19Webui: the one long-running command, in the configuration in which it fails at once (its port is
+// taken): like every command it gives the lock back.
+func c19Webui(c *runCtx, gb, tmpl string) {
+	dir := copyDir(tmpl)
+	ln, err := net.Listen("tcp", "127.0.0.1:0")
+	if err != nil {
+		c.count("webui=skipped-no-listener")
+		return
+	}
+	defer ln.Close()
+	port := ln.Addr().(*net.TCPAddr).Port
+	cmd := exec.Command(gb, "webui", "--host", "127.0.0.1", "--port", strconv.Itoa(port), "--no-open")
+	cmd.Dir = dir
+	cmd.Env = gbEnv(dir)
+	done := make(chan struct{})
+	var out []byte
+	var cerr error
+	go func() { out, cerr = cmd.CombinedOutput(); close(done) }()
+	select {
+	case <-done:
+	case <-time.After(30 * time.Second):
+		cmd.Process.Kill()
+		<-done
+		c.violation(-1, "C19/harness", "webui on a taken port did not exit: "+trunc(string(out), 200), nil)
+		return
+	}
+	c.count(fmt.Sprintf("webui-port-taken/failed=%v", cerr != nil))
+	if cerr == nil {
+		c.violation(-1, "C19/harness", "webui on a taken port reported success: "+trunc(string(out), 200), nil)
+	}
+	if l := readLock(dir); l != "" {
+		c.violation(-1, "C19/lock-left-by-command", fmt.Sprintf("`git-bug webui` that could not start (port %d in use: %s) left the lock file behind (%q)", port, trunc(string(out), 120), l), map[string]any{"command": "webui"})
+	}
+	os.RemoveAll(dir)
+}
+
+// c19DoubleClose: at the level of the cache API, inside one process: a cache that was closed does not
+// touch the lock any more — closing it again (a signal handler racing with the normal exit path, a
+// deferred Close after an explicit one) must not remove the lock of whoever holds the repository by then.
+func c19DoubleClose(c *runCtx) {
+	repo, dir := newGoGit("c19dc", false)
+	a, err := cache.NewRepoCacheNoEvents(repo)
+	if err != nil {
+		panic(err)
+	}
+	if err := a.Close(); err != nil {
+		panic(err)
+	}
+	r2, err := openGoGit(dir)
+	if err != nil {
+		panic(err)
+	}
+	b, err := cache.NewRepoCacheNoEvents(r2)
+	if err != nil {
+		c.violation(-1, "C19/dead-holder-blocks", "a repository whose cache was closed cannot be opened again: "+err.Error(), nil)
+		return
+	}
+	held := readLock(dir)
+	a.Close() // the second time
+	c.count("double-close")
+	if l := readLock(dir); l != held {
+		c.violation(-1, "C19/live-lock-removed", fmt.Sprintf("closing an already closed cache a second time changed the lock file of the cache that holds the repository now (%q -> %q)", held, l), nil)
+	}
+	r3, err := openGoGit(dir)
+	if err == nil {
+		if x, err := cache.NewRepoCacheNoEvents(r3); err == nil {
+			c.violation(-1, "C19/live-lock-removed", "after a second Close of another, already closed cache, a third cache opened the repository next to the one that holds it", nil)
+			x.Close()
+		}
+		r3.Close()
+	}
+	b.Close()
+	if l := readLock(dir); l != "" {
+		c.violation(-1, "C19/lock-left", "lock file left after every cache was closed: "+l, nil)
+	}
+}
+
+// c19EmptyLock: the known finding. A process that dies between creating the lock file and writing
+// its pid leaves an empty file; nothing recovers it.
+func c19EmptyLock(c *runCtx, gb, tmpl string, id entity.Id) {
+	dir := copyDir(tmpl)
+	y := filepath.Join(dir, "yield")
+	p0 := c19Start(gb, dir, id, "GITBUG_VERIF_YIELD=lock:after-create="+y)
+	reached := false
+	for i := 0; i < 3000 && !p0.exited(); i++ {
+		if _, err := os.Stat(y + ".reached"); err == nil {
+			reached = true
+			break
+		}
+		time.Sleep(2 * time.Millisecond)
+	}
+	if !reached {
+		c.count("empty-lock=yield-not-reached")
+		p0.cmd.Process.Kill()
+		p0.wait(5 * time.Second)
+		os.RemoveAll(dir)
+		return
+	}
+	p0.cmd.Process.Kill()
+	p0.wait(5 * time.Second)
+	content, _ := os.ReadFile(lockPath(dir))
+	out, err := runGB(gb, dir, "bug")
+	c.count(fmt.Sprintf("empty-lock/next-open-fails=%v", err != nil))
+	if err != nil {
+		c.violation(-1, "C19/empty-lock-never-recovered", fmt.Sprintf("a process killed between creating the lock file and writing its pid left a lock file holding %q; the next command fails: %s", content, trunc(out, 160)), nil)
+	}
+	os.RemoveAll(dir)
 }
 
 // c19LockForms: what the lock file can hold and who can be asked about it.  A dead holder's pid of
